@@ -46,6 +46,7 @@ def check(ctx: Ctx) -> None:
         analyse_class(ctx, 'C10.a', IA, cname)
     ctx.rule('C10.b', 'solver state is written from outside the class hierarchy only by the frozen wrappers', floor=1)
     _check_power_applied(ctx)
+    _check_power_degrees(ctx)
     for fn, attr, line, recv in foreign_writers(ctx.model, PROTECTED, IA.classes + ['IterativeIASolverBaseClass']):
         q = fn.qualname
         ctx.instance('C10.b', '%s:%s' % (q, attr))
@@ -55,6 +56,55 @@ def check(ctx: Ctx) -> None:
             ctx.violation('C10.b', q, 'writes solver state %s.%s from outside the IA solver hierarchy (not one of the '
                           'frozen wrappers %s): derived quantities of that solver can no longer be kept fresh by '
                           'its own setters' % (recv, attr, sorted(FROZEN_FOREIGN)), fn.path, line, operand=attr)
+
+
+def _check_power_degrees(ctx: Ctx) -> None:
+    """C10.h: whatever is stored into the power-scaled precoder scales like the square root of the power."""
+    from fractions import Fraction
+    from ..astutil import power_degree, sequential_defs, stmts_in_order
+    from ..model import is_self_attr, norm, walk_no_nested
+    M = ctx.model
+    ctx.rule('C10.h', 'dimensional analysis in the transmit power: F (unit norm) has degree 0, full_F = F sqrt(P) degree 1/2, P degree 1; every value '
+                      'stored into _full_F whose degree can be computed has degree 1/2 (a norm SQUARED used as a scale, a forgotten or doubled '
+                      'square root give 1 or 0)', floor=2)
+    DEG = {'_F': 0, 'F': 0, '_full_F': Fraction(1, 2), 'full_F': Fraction(1, 2), '_P': 1, 'P': 1}
+    for path in (BASE, ALGS):
+        mod = M.module(path)
+        for c in mod.classes.values():
+            if c.name not in IA.classes + ['IterativeIASolverBaseClass']:
+                continue
+            for fn in list(c.methods.values()) + list(c.getters.values()) + list(c.setters.values()):
+                sn = fn.self_name
+                if sn is None:
+                    continue
+
+                def deg_of(e, sn=sn):
+                    a = is_self_attr(e, sn) if isinstance(e, ast.Attribute) else None
+                    return DEG.get(a) if a is not None else None
+                for body_owner in ast.walk(fn.node):
+                    for fld in ('body', 'orelse'):
+                        body = getattr(body_owner, fld, None)
+                        if not (isinstance(body, list) and body and isinstance(body[0], ast.stmt)):
+                            continue
+                        for i, st in enumerate(body):
+                            if not isinstance(st, ast.Assign) or len(st.targets) != 1:
+                                continue
+                            t = st.targets[0]
+                            root = t.value if isinstance(t, ast.Subscript) else t
+                            if is_self_attr(root, sn) != '_full_F' or (isinstance(st.value, ast.Constant) and st.value.value is None):
+                                continue
+                            construct = '%s:store@%s' % (fn.qualname, norm(t)[:30])
+                            ctx.instance('C10.h', construct)
+                            allst = stmts_in_order(fn)
+                            defs = sequential_defs(allst[:allst.index(st)])        # everything that precedes the store, in source order
+                            d = power_degree(st.value, deg_of, defs)
+                            ok = d is None or d == Fraction(1, 2)
+                            ctx.obligation('C10.h', construct, ok, {'value': norm(st.value)[:80], 'degree_in_power': str(d) if d is not None else 'no verdict'},
+                                           nontrivial=d is not None)
+                            if not ok:
+                                ctx.violation('C10.h', fn.qualname, 'the value `%s` stored into the power-scaled precoder has degree %s in the transmit power, '
+                                              'not 1/2: the user then transmits with P^%s instead of P' % (norm(st.value)[:70], d, 2 * d),
+                                              fn.path, st.lineno, operand='power-degree')
 
 
 def _check_power_applied(ctx: Ctx) -> None:
@@ -79,6 +129,13 @@ def _check_power_applied(ctx: Ctx) -> None:
 
 
 MUTANTS = [
+    Mutant('full-precoder-scaled-by-the-power', BASE, 'IASolverBaseClass.full_F@getter',
+           [('replace', 'self._F * np.sqrt(self.P)', 'self._F * self.P')], r'C10\.h:IASolverBaseClass\.full_F@getter:power-degree'),
+    Mutant('benign-full-precoder-factors-swapped', BASE, 'IASolverBaseClass.full_F@getter',
+           [('replace', 'self._F * np.sqrt(self.P)', 'np.sqrt(self.P) * self._F')], None, benign=True),
+    Mutant('reduced-precoder-restored-with-the-squared-norm', ALGS, 'IterativeIASolverBaseClass._solve_finalize',
+           [('replace', "original_norm = np.linalg.norm(self._full_F[k], 'fro')", "original_norm = np.linalg.norm(self._full_F[k], 'fro') ** 2")],
+           r'C10\.h:IterativeIASolverBaseClass\._solve_finalize:power-degree'),
     Mutant('noise-identity-sized-by-the-leaked-loop-index', ALGS, 'MMSEIASolver._calc_Uk',
            [('replace', 'np.eye(self.Nr[k])', 'np.eye(self.Nr[i])')], r'C10\.f:MMSEIASolver\._calc_Uk:after-loop:i'),
     Mutant('per-user-count-leaks-into-later-loop', ALGS, 'IterativeIASolverBaseClass._solve_finalize',
